@@ -144,3 +144,7 @@ impl Object for Macro {
         write!(f, "<macro {}>", self.name)
     }
 }
+
+#[cfg(kani)]
+#[path = "/verif/kani/vm_macro_object.rs"]
+mod verif_kani;
